@@ -62,8 +62,8 @@ class LinePixelRegion(PixelRegion):
     def __init__(self, start, end, meta=None, visual=None):
         self.start = start
         self.end = end
-        self.meta = meta or RegionMeta()
-        self.visual = visual or RegionVisual()
+        self.meta = RegionMeta() if meta is None else meta
+        self.visual = RegionVisual() if visual is None else visual
 
     @property
     def area(self):
@@ -183,8 +183,8 @@ class LineSkyRegion(SkyRegion):
     def __init__(self, start, end, meta=None, visual=None):
         self.start = start
         self.end = end
-        self.meta = meta or RegionMeta()
-        self.visual = visual or RegionVisual()
+        self.meta = RegionMeta() if meta is None else meta
+        self.visual = RegionVisual() if visual is None else visual
 
     def contains(self, skycoord, wcs):  # pylint: disable=unused-argument
         # lines never contain anything
